@@ -49,6 +49,13 @@ class Budget(Exception):
     """step watchdog of the infinite instrumented source"""
 
 
+WD = [4.0]          # wall-clock watchdog (seconds); halved after every hang so that a mass failure stays affordable
+
+
+def hang_seen():
+    WD[0] = max(0.25, WD[0] / 2)
+
+
 WORK = [0]          # number of calls of user code (callables, getters, selectors, print transforms)
 STDOUT = io.StringIO()
 
@@ -268,6 +275,8 @@ class _SrcBranch(object):
 
     def __call__(self):
         for j in itertools.count(self.start):
+            if j - self.start >= BUDGET:
+                raise Budget()
             yield ((j, "S"), {})
 
 
@@ -642,12 +651,15 @@ def check_pipeline(pipe, n, mode="sequence", stops=True):
     bad = []
     with contextlib.redirect_stdout(STDOUT):
         try:
-            with watchdog(10):
+            with watchdog(WD[0]):
                 _check_pipeline(pipe, n, mode, stops, bad)
         except Timeout:
+            hang_seen()
             bad.append(("nonterminating", "hang (wall-clock watchdog)"))
         except Budget:
             bad.append(("nonterminating", "the infinite input was pulled more than %d times" % BUDGET))
+        except Exception as e:
+            bad.append(("exception", "%s: %s" % (type(e).__name__, e)))
     STDOUT.seek(0)
     STDOUT.truncate()
     return bad
@@ -677,6 +689,10 @@ def _check_pipeline(pipe, n, mode, stops, bad):
     STDOUT.truncate()
     try:
         it = make_iter(pipe, src, mode)
+    except Budget:
+        bad.append(("work-before-first-demand", "construction and %s drain the infinite input"
+                    % ("run()" if mode == "sequence" else "__call__()")))
+        return
     except Exception as e:
         bad.append(("exception", "building/run(): %s: %s" % (type(e).__name__, e)))
         return
@@ -880,7 +896,7 @@ def slice_neg_case(args, n):
         return bad
     got = []
     try:
-        with watchdog(5):
+        with watchdog(WD[0]):
             while n is not None or len(got) < K_INF:
                 try:
                     v = next(it)
@@ -902,6 +918,7 @@ def slice_neg_case(args, n):
                                     "the input by exactly %d: %d" % (k, i, src.pulled, stop, -stop, want)))
                         break
     except Timeout:
+        hang_seen()
         bad.append(("nonterminating", "hang"))
     except Budget:
         bad.append(("nonterminating", "infinite input pulled more than %d times" % BUDGET))
@@ -927,6 +944,25 @@ def _alive_clause(alive, start, bound):
     if 0 < len(skipped) <= 2 and len(alive) - len(skipped) <= bound:
         return "skipped-value-kept-alive"
     return "keeps-more-than-index-alive"
+
+
+def _guard(fn):
+    """an exception of the real code in one of the closed-form cases is a reported failure, not a crash of the harness"""
+    def g(*a):
+        try:
+            return fn(*a)
+        except Timeout:
+            hang_seen()
+            return [("nonterminating", "hang")]
+        except Budget:
+            return [("nonterminating", "the infinite input was pulled more than %d times" % BUDGET)]
+        except Exception as e:
+            return [("exception", "%s: %s" % (type(e).__name__, e))]
+    g.__name__ = fn.__name__
+    return g
+
+
+slice_neg_case = _guard(slice_neg_case)
 
 
 def replay_slice_neg(args, n):
@@ -974,7 +1010,7 @@ def split_live_case(name, bufsize, copy_buf, n):
         return bad
     k = 0
     try:
-        with watchdog(5):
+        with watchdog(WD[0]):
             while n is not None or k < 3 * K_INF:
                 try:
                     v = next(it)
@@ -991,6 +1027,7 @@ def split_live_case(name, bufsize, copy_buf, n):
                                 % (k, src.pulled, bufsize)))
                     break
     except Timeout:
+        hang_seen()
         bad.append(("nonterminating", "hang"))
     except Budget:
         bad.append(("nonterminating", "infinite input pulled more than %d times" % BUDGET))
@@ -999,6 +1036,9 @@ def split_live_case(name, bufsize, copy_buf, n):
         if src.live:
             bad.append(("holds-after-exhaustion", "%d input values alive after the exhausted run was dropped" % src.live))
     return bad
+
+
+split_live_case = _guard(split_live_case)
 
 
 def replay_split_live(name, bufsize, copy_buf, n):
@@ -1043,13 +1083,14 @@ def infinite_source_case(which, n_stop):
     need = {"CountFrom": None, "generator": n_stop, "generator-count-filter": 0 if n_stop == 0 else 2 * (n_stop - 1) + 2,
             "split-with-infinite-source-branch": 0 if n_stop == 0 else 2, "nested-source": n_stop}[which]
     try:
-        with watchdog(3):
+        with watchdog(min(WD[0], 1.0)):
             it = s()
             if made[0]:
                 bad.append(("work-before-first-demand", "Source.__call__ generated %d values" % made[0]))
                 return bad
             got = [view(v) for v in it]
     except Timeout:
+        hang_seen()
         bad.append(("nonterminating", "Slice(%d) after the infinite source does not terminate" % n_stop))
         return bad
     except Budget:
@@ -1061,6 +1102,9 @@ def infinite_source_case(which, n_stop):
         bad.append(("pulled-more-than-needed" if made[0] > need else "pulled-less-than-determining-prefix",
                     "%d values generated, %d determine the %d results" % (made[0], need, n_stop)))
     return bad
+
+
+infinite_source_case = _guard(infinite_source_case)
 
 
 def replay_infinite_source(which, n_stop):
@@ -1164,6 +1208,8 @@ def body(R):
                 make_iter(pipe, Src(0), mode)
         except lena.core.LenaValueError:
             continue                # e.g. Slice(5, -1, 0): outside the domain
+        except Exception:
+            pass                    # reported by check_pipeline
         bad = check_pipeline(pipe, n, mode)
         R.case(True, {"pipeline": pipe, "n": n, "mode": mode})
         report(R, pipe, n, mode, bad)
